@@ -4,7 +4,9 @@ package chain
 
 import (
 	"bytes"
+	"crypto/sha256"
 	"encoding/binary"
+	"errors"
 	"io"
 	"os"
 
@@ -78,6 +80,9 @@ func (fs *h16_fs) install() {
 		return len(b), nil
 	})
 	zzverif.Replace("(*os.File).WriteAt", func(f *os.File, b []byte, off int64) (int, error) {
+		if off < 0 {
+			return 0, errors.New("negative offset")
+		}
 		fs.writeAt(fs.handles[f].name, int(off), b)
 		return len(b), nil
 	})
@@ -98,6 +103,9 @@ func (fs *h16_fs) install() {
 		return n, e
 	})
 	zzverif.Replace("(*os.File).ReadAt", func(f *os.File, b []byte, off int64) (int, error) {
+		if off < 0 {
+			return 0, errors.New("negative offset")
+		}
 		n, e := read(fs.handles[f].name, int(off), b)
 		if e == nil && n < len(b) {
 			e = io.EOF
@@ -120,26 +128,87 @@ func (fs *h16_fs) install() {
 	zzverif.Replace("(*os.File).Sync", func(f *os.File) error { return nil })
 }
 
-// h16_block: a block of 81..82 bytes with a fixed (distinct) header and arbitrary bytes after it
+// h16_block: a block of 81..82 bytes with a fixed (distinct, incompressible) header and arbitrary bytes after it
 func h16_block(tag byte, name string) *btc.Block {
-	raw := make([]byte, 80)
-	raw[0], raw[4] = 4, tag
+	raw := make([]byte, 0, 96)
+	for i := byte(0); i < 3; i++ {
+		h := sha256.Sum256([]byte{tag, i})
+		raw = append(raw, h[:]...)
+	}
+	raw = raw[:80]
 	raw = append(raw, zzverif.Bytes(name, 1+int(tag&1))...) // 81 or 82 bytes
 	bl, _ := btc.NewBlock(raw)
 	bl.TxCount = int(tag)
 	return bl
 }
 
+// h16_snappy_literal: the snappy stream of an input of 61..256 bytes in which the encoder finds no repeated
+// 4-byte sequence: length varint, one literal element. This is what snappy.Encode emits for the blocks of this
+// harness (their headers are SHA-256 output; the encoder does not look for matches in the last 15 bytes).
+func h16_snappy_literal(src []byte) []byte {
+	out := []byte{byte(len(src)), 0xf0, byte(len(src) - 1)}
+	if len(src) >= 128 {
+		out = []byte{byte(len(src)) | 0x80, 1, 0xf0, byte(len(src) - 1)}
+	}
+	return append(out, src...)
+}
+
+func h16_install_snappy() {
+	zzverif.Stub("snappy assembly kernels encodeBlock / decode: one literal element for the harness blocks (their headers are SHA-256 output, so the real encoder finds no match), and a decoder of literal elements; snappy.Encode / Decode themselves are the real code")
+	zzverif.Replace("github.com/piotrnar/gocoin/lib/others/snappy.encodeBlock", func(dst, src []byte) int {
+		dst[0], dst[1] = 0xf0, byte(len(src)-1) // 61..256 bytes
+		return 2 + copy(dst[2:], src)
+	})
+	zzverif.Replace("github.com/piotrnar/gocoin/lib/others/snappy.decode", func(dst, src []byte) int {
+		d, s := 0, 0
+		for s < len(src) {
+			if src[s]&3 != 0 {
+				return 1 // a copy element: not produced by the encoder stub
+			}
+			n := int(src[s] >> 2)
+			s++
+			if n == 60 {
+				if s >= len(src) {
+					return 1
+				}
+				n = int(src[s])
+				s++
+			} else if n > 60 {
+				return 1
+			}
+			n++
+			if n > len(dst)-d || n > len(src)-s {
+				return 1
+			}
+			copy(dst[d:], src[s:s+n])
+			d, s = d+n, s+n
+		}
+		if d != len(dst) {
+			return 1
+		}
+		return 0
+	})
+}
+
 // C16 (inductive step): the block store opened on an arbitrary well-formed on-disk state of two blocks (each with an
 // arbitrary flag byte: trusted and/or invalid), then one new block added, optionally flushed, optionally one of the
-// old blocks marked trusted or invalid, the store closed and opened again. At every stage every block that is not
+// three blocks marked trusted or invalid, the store closed and opened again. At every stage every block that is not
 // marked invalid is returned byte-identical by its hash, the index walk lists exactly the non-invalid blocks with
 // their heights, sizes, transaction counts and trusted flags, and appending overwrote none of them.
-func H_C16_StoreStep() {
+func H_C16_StoreStep() { h16_step(false) }
+
+// C16: the same step with the store compressing on disk: the two stored blocks are snappy streams (longer than the
+// blocks, as for any incompressible block), the new block is compressed when written.
+func H_C16_StoreStepCompressed() { h16_step(true) }
+
+func h16_step(compress bool) {
 	fs := &h16_fs{files: map[string][]byte{}, handles: map[*os.File]*h16_handle{}}
 	dir := "/blocks/"
 	if zzverif.Symbolic() {
 		fs.install()
+		if compress {
+			h16_install_snappy()
+		}
 	} else {
 		// natively the same steps run on real files
 		tmp, _ := os.MkdirTemp("", "zzverif_c16_")
@@ -149,7 +218,7 @@ func H_C16_StoreStep() {
 	A, B, C := h16_block(0xA1, "A"), h16_block(0xB2, "B"), h16_block(0xC3, "C")
 	pre := []*btc.Block{A, B}
 	flags := []byte{byte(zzverif.Enum("A.flags", 4)), byte(zzverif.Enum("B.flags", 4))} // bit 0 trusted, bit 1 invalid
-	zzverif.Bound("store state", "two stored blocks of 81..82 bytes (fixed distinct headers, arbitrary bodies) with arbitrary trusted/invalid flags, uncompressed; one new block, written to the same data file or to a new one (roll-over); cache of 1 or 10 blocks")
+	zzverif.Bound("store state", "two stored blocks of 81..82 bytes (fixed distinct headers, arbitrary bodies) with arbitrary trusted/invalid flags, uncompressed (StoreStep) or snappy streams of one literal element (StoreStepCompressed); one new block, written to the same data file or to a new one (roll-over); cache of 1 or 10 blocks")
 	// ---- the on-disk pre-state in the store's own format
 	var idx, dat []byte
 	for i, bl := range pre {
@@ -158,11 +227,16 @@ func H_C16_StoreStep() {
 		binary.LittleEndian.PutUint32(rec[32:36], uint32(len(bl.Raw)))
 		binary.LittleEndian.PutUint32(rec[36:40], uint32(100+i))
 		binary.LittleEndian.PutUint64(rec[40:48], uint64(len(dat)))
-		binary.LittleEndian.PutUint32(rec[48:52], uint32(len(bl.Raw)))
+		stored := bl.Raw
+		if compress {
+			rec[0] |= BLOCK_COMPRSD | BLOCK_SNAPPED
+			stored = h16_snappy_literal(bl.Raw)
+		}
+		binary.LittleEndian.PutUint32(rec[48:52], uint32(len(stored)))
 		binary.LittleEndian.PutUint32(rec[52:56], uint32(bl.TxCount))
 		copy(rec[56:136], bl.Raw[:80])
 		idx = append(idx, rec[:]...)
-		dat = append(dat, bl.Raw...)
+		dat = append(dat, stored...)
 	}
 	if zzverif.Symbolic() {
 		fs.files[dir+"blockchain.new"] = idx
@@ -181,7 +255,7 @@ func H_C16_StoreStep() {
 		height, blen, txs uint32
 	}
 	open := func() (*BlockDB, map[[32]byte]listed) {
-		db := NewBlockDBExt(dir, &BlockDBOpts{MaxCachedBlocks: cache, MaxDataFileSize: maxDat})
+		db := NewBlockDBExt(dir, &BlockDBOpts{MaxCachedBlocks: cache, MaxDataFileSize: maxDat, CompressOnDisk: compress})
 		got := map[[32]byte]listed{}
 		db.LoadBlockIndex(nil, func(ch *Chain, hash, hdr []byte, height, blen, txs uint32) {
 			var h [32]byte
@@ -225,7 +299,7 @@ func H_C16_StoreStep() {
 	if zzverif.Bool("flush-after-add") {
 		db.Idle()
 	}
-	switch zzverif.Enum("flag-op", 5) {
+	switch zzverif.Enum("flag-op", 7) {
 	case 1:
 		if !invalid[A] {
 			db.BlockTrusted(A.Hash.Hash[:])
@@ -246,6 +320,12 @@ func H_C16_StoreStep() {
 			db.BlockInvalid(B.Hash.Hash[:])
 			invalid[B] = true
 		}
+	case 5: // the new block, still queued or already written
+		db.BlockTrusted(C.Hash.Hash[:])
+		trusted[C] = true
+	case 6:
+		db.BlockInvalid(C.Hash.Hash[:])
+		invalid[C] = true
 	}
 	all := []*btc.Block{A, B, C}
 	check("after-add", db, nil, all, false)
